@@ -289,6 +289,12 @@ def run(tier="quick", seed=0):
                     lambda a, sd: sa_place(*a, effort=efforts[sd % len(efforts)], random=random.Random(sd), kernel=PythonKernel, kernel_kwargs={"no_warn": True}))]
         if CKernel is not None:
             configs.append(("sa_c_kernel", seeds, lambda a, sd: sa_place(*a, effort=efforts[sd % len(efforts)], random=random.Random(sd), kernel=CKernel)))
+        # the annealer with a progress callback that only looks at what it is given (the placements handed to a callback are the
+        # caller's to read; the annealing must go on as without it)
+        seen_cb = []
+        configs.append(("sa_python_kernel_with_callback", tuple(sa_py_seeds[:1]),
+                        lambda a, sd: sa_place(*a, effort=efforts[sd % len(efforts)], random=random.Random(sd), kernel=PythonKernel, kernel_kwargs={"no_warn": True},
+                                               on_temperature_change=lambda *cb: seen_cb.append(len(cb[1]) if len(cb) > 1 and hasattr(cb[1], "__len__") else 0))))
         for name, sds, call in configs:
             if only is not None and name not in only:
                 continue
@@ -444,6 +450,13 @@ def run(tier="quick", seed=0):
                 eseeds = tuple(range(3)) if thorough else (elong % 3,)
                 evaluate(p, eseeds, eseeds, (1.0,))
                 elong += 1
+        # (F) machines of more than a thousand chips with a handful of vertices: the orderings the placers compute over the
+        #     whole machine (breadth-first / depth-first / Hilbert / RCM walks over the chip graph) must cope with its size
+        for (w, h) in ((36, 36), (40, 30)):
+            chips = [(x, y) for x in range(w) for y in range(h)]
+            p = {"w": w, "h": h, "caps": (17,), "dead": ((5, 9),), "exc": {}, "needs": [(1,)] * 20, "loc": [], "same": [],
+                 "gres": [], "lres": [], "nets": [(i, [i + 1], 1.0) for i in range(1, 20)]}
+            evaluate(p, (0,), (0,), (0.1,), only=("sequential", "breadth_first", "hilbert", "rcm", "rand"))
         if size_vectors:
             t = size_vectors[0]
             samples.append({"tight_packing": {"machine": "2x2, 3 cores per chip", "vertex_sizes": list(t)}})
@@ -453,7 +466,7 @@ def run(tier="quick", seed=0):
     viol = [v for _, v in sorted(found.values(), key=lambda sv: sv[1]["clause"])]
     return {"name": "c02_place", "evaluations": st["ev"], "distinct_nontrivial": st["problems"],
             "rule": "a problem = (machine, vertex need vectors, location set, same-chip set, global reservations, per-chip reservations, nets) from menus: "
-                    "family E: 14 larger / elongated machine shapes (1x4 ... 16x1, 3x12, 6x4) with one core per chip, exactly filled with one-core vertices, with and without a dead chip, every placer; %d machine shapes (1x1, 2x1, 1x2, 2x2 with dead-chip sets incl. all-dead) x %d resource layouts (chip resources (4,4)/(2)/(3,2)/(1,1)/(3) of Cores/SDRAM; "
+                    "family F: 36x36 and 40x30 machines (one dead chip) with 20 one-core vertices in a chain, the five placers that order the whole machine; the annealer (Python kernel) also with an observing progress callback; family E: 14 larger / elongated machine shapes (1x4 ... 16x1, 3x12, 6x4) with one core per chip, exactly filled with one-core vertices, with and without a dead chip, every placer; %d machine shapes (1x1, 2x1, 1x2, 2x2 with dead-chip sets incl. all-dead) x %d resource layouts (chip resources (4,4)/(2)/(3,2)/(1,1)/(3) of Cores/SDRAM; "
                     "0-2 chip_resource_exceptions on the first / last / a dead chip), "
                     "%d need-vector sets (all for <= 2 vertices with needs 0..2 of 2 resources; 3 and 4 vertices: all single-resource 0..2 / 0..1 / 1..2 vectors and mixed ones%s), "
                     "%d location sets (<= 3, duplicated, on a dead chip), %d same-chip sets (chained, duplicated member, repeated group, overlapping, empty/singleton), "
